@@ -252,3 +252,41 @@ CLAIMS = {
                      "text parser",
     },
 }
+
+
+# Rules added after the first version of a claim; appended so that MANIFEST.json names every rule that decides.
+_ALSO = {
+    "C02": ("the empty list is printed as `()` under every printer option value; on the leading-digit path the token "
+            "reaches the numeric sub-parser without a data-dependent pre-filter.", None),
+    "C03": ("the reader's lookahead byte is discarded only right after a peek that returned a byte (typestate over all "
+            "abstract paths, with a fixpoint over functions that start by discarding); helpers the counter logic is split "
+            "into (enter/leave style) are summarised by outcome (result variant, delta, tested) and accounted for at each "
+            "call site.",
+            "call-graph SCC + dataflow analysis of the depth counter (path-sensitive in Result/Option variants, with helper "
+            "summaries), lookahead typestate analysis, panic-site inventory with guard discharge, natural-loop progress "
+            "analysis, conditional constant propagation over the first input byte"),
+    "C04": ("tuple / tuple-struct / tuple-variant deserialization checks the declared arity.", None),
+    "C05": ("the u64/i64 boundary of integer literals (|i64::MIN| accepted as negative, one more goes to the float path) "
+            "is decided on the abstract paths of the number tail.", None),
+    "C07": ("no buffering writer (whose pending bytes would be flushed in Drop with the error discarded) is interposed on "
+            "the print path; local helpers that only forward to write_all count as the write_all they perform.", None),
+    "C08": ("for 240 (token text, option values) cases over representative letter-initial texts {nil, t, x, nil:, t:, x:, "
+            "...} the token produced is exactly the documented one (postfix keyword first, then nil, then t, else symbol); "
+            "parse_token may be split into loop-free helpers, the evaluation looks through them.",
+            "conditional constant propagation of parse_token (and the loop-free helpers it is split into) over first bytes, "
+            "option values and representative token texts; dominance / call-site audits"),
+    "C09": ("a sign followed by a character the macro joins is a symbol for the text parser too (two open findings: `-.`, "
+            "`+.`); the macro's alphabets are obtained by abstract evaluation of its token parser for each ASCII "
+            "punctuation character with the token stream symbolic.",
+            "abstract evaluation of the macro crate's token parser per punctuation character, compared with byte classes "
+            "and token kinds extracted from the text parser"),
+    "C10": ("the dotted-tail handling of the list twins maps each tail token to the same outcome.", None),
+    "C11": ("for a quote shorthand the end position handed to Datum::quotation is read before the quoted datum is parsed; "
+            "reader fields are identified by type and accessors by signature.", None),
+    "C12": ("the fused flag lives in the parser, not in the per-call iterator object.", None),
+    "C15": ("the tail handling of the list traversals maps each cdr shape to the documented outcome.", None),
+}
+for _k, (_t, _tech) in _ALSO.items():
+    CLAIMS[_k]["text"] = CLAIMS[_k]["text"] + " Also claimed: " + _t
+    if _tech:
+        CLAIMS[_k]["technique"] = _tech
